@@ -4,6 +4,7 @@
 //!        scenario 1 = interrupt (SIGINT) with live sessions; mask as in c19_front
 //!        scenario 2 = credentials file and log (see `credentials`); scenario 3 = rules file (see `run`);
 //!        scenario 4 = the log of sessions that carry a secret without presenting it to an authenticator (see `quiet_secrets`)
+//!        scenario 5 = hosts file rewritten + SIGHUP (see `reloads`)
 //!        user / password: the one client written to the credentials file (TOML basic strings, escaped by the harness)
 //! out: [996] | [sessions established mask, goodbye mask (HTTP/1.1: closed by the endpoint; HTTP/2: GOAWAY then end; HTTP/3: QUIC close),
 //!       process exit code (1000 = still running 5 s after the signal), milliseconds from the signal to the exit (capped),
@@ -334,6 +335,127 @@ async fn quiet_secrets(f: Vec<u128>, user: String, password: String, label1: Str
     out
 }
 
+/// scenario 5: the hosts file rewritten under the running binary, then SIGHUP (the reload task of `endpoint/src/main.rs`).
+/// in : [5, 0, log level] steps      one kind per reload, the step at position k brings the name "h<k>.example":
+///        0 good: main hosts "localhost" and "h<k>.example"
+///        1 cert_chain_path of "localhost" names a file that does not exist     2 the file is not TOML     3 the file is gone
+///        4 "h<k>.example" is a main host and a ping host
+///        5 the certificate file of "localhost" holds the key only (private_key_path is good)
+///        6 the main hosts "localhost" and "h<k>.example" share the alternative SNI "alias.example"
+///        7 good: the only main host is "h<k>.example"
+///      every file that can be parsed lists "h<k>.example" as a main host, so a bad file that is applied shows
+/// out: [996] | per step [process alive, exit code (1000 while alive), mask of the names that complete a handshake,
+///      mask of the names whose probe was inconclusive], then [exit code after the interrupt (1000 = none within 5 s)]
+///      names: bit 0 "localhost", bit 1 + k "h<k>.example", bit 1 + steps "alias.example"
+async fn reloads(f: Vec<u128>, steps: Vec<u128>) -> Vec<Tok> {
+    let Some(mut p) = spawn("", "", f[2], false, "").await else {
+        return vec![vec![996]];
+    };
+    let good = toml_str(&crate::ctxutil::cert_path());
+    let key_only = toml_str(&crate::ctxutil::key_only_path());
+    let missing = toml_str(&p.dir.join("no_such_certificate.pem").to_string_lossy());
+    let entry = |group: &str, name: &str, cert: &str, alias: Option<&str>| {
+        format!(
+            "[[{}]]\nhostname = {}\ncert_chain_path = {}\nprivate_key_path = {}\n{}\n",
+            group,
+            toml_str(name),
+            cert,
+            good,
+            alias.map(|a| format!("allowed_sni = [{}]\n", toml_str(a))).unwrap_or_default()
+        )
+    };
+    let mut names = vec!["localhost".to_string()];
+    for k in 0..steps.len() {
+        names.push(format!("h{}.example", k));
+    }
+    names.push("alias.example".to_string());
+    let hosts_path = p.dir.join("hosts.toml");
+    let seen_reloads = |p: &Proc| String::from_utf8_lossy(&p.log.lock().unwrap()).matches("Reloading TLS hosts settings").count();
+    let mut out = vec![];
+    let mut dead: Option<u128> = None;
+    for (k, kind) in steps.iter().enumerate() {
+        if let Some(code) = dead {
+            out.push(vec![0, code, 0, 0]);
+            continue;
+        }
+        let hk = format!("h{}.example", k);
+        let text = match kind {
+            0 => entry("main_hosts", "localhost", &good, None) + &entry("main_hosts", &hk, &good, None),
+            1 => entry("main_hosts", "localhost", &missing, None) + &entry("main_hosts", &hk, &good, None),
+            2 => "[[main_hosts]\nhostname = localhost = \"\n".to_string(),
+            4 => entry("main_hosts", "localhost", &good, None) + &entry("main_hosts", &hk, &good, None) + &entry("ping_hosts", &hk, &good, None),
+            5 => entry("main_hosts", "localhost", &key_only, None) + &entry("main_hosts", &hk, &good, None),
+            6 => entry("main_hosts", "localhost", &good, Some("alias.example")) + &entry("main_hosts", &hk, &good, Some("alias.example")),
+            7 => entry("main_hosts", &hk, &good, None),
+            _ => String::new(),
+        };
+        let written = if *kind == 3 { std::fs::remove_file(&hosts_path).is_ok() || !hosts_path.exists() } else { std::fs::write(&hosts_path, text).is_ok() };
+        if !written {
+            return vec![vec![996]];
+        }
+        let before = seen_reloads(&p);
+        unsafe {
+            libc::kill(p.child.id() as i32, libc::SIGHUP);
+        }
+        // the reload task announces every signal it takes ("Reloading TLS hosts settings", info level); without that line: 3 s
+        for _ in 0..120 {
+            tokio::time::sleep(Duration::from_millis(25)).await;
+            if seen_reloads(&p) > before || matches!(p.child.try_wait(), Ok(Some(_))) {
+                break;
+            }
+        }
+        if *kind == 0 || *kind == 7 {
+            // a good reload is in force when its new name is served (up to 10 s)
+            for _ in 0..100 {
+                if matches!(p.child.try_wait(), Ok(Some(_))) || crate::front::tls_probe(p.addr, &hk, &[b"http/1.1"]).await == Some(true) {
+                    break;
+                }
+                tokio::time::sleep(Duration::from_millis(100)).await;
+            }
+        } else {
+            tokio::time::sleep(Duration::from_millis(500)).await;
+        }
+        if let Ok(Some(st)) = p.child.try_wait() {
+            let code = st.code().map(|c| c as u128).unwrap_or(999);
+            dead = Some(code);
+            out.push(vec![0, code, 0, 0]);
+            continue;
+        }
+        let (mut served, mut unknown) = (0u128, 0u128);
+        for (bit, n) in names.iter().enumerate() {
+            match crate::front::tls_probe(p.addr, n, &[b"http/1.1"]).await {
+                Some(true) => served |= 1 << bit,
+                Some(false) => (),
+                None => unknown |= 1 << bit,
+            }
+        }
+        // (the process may have been on its way out while it was probed: a panicking endpoint takes a moment to exit)
+        tokio::time::sleep(Duration::from_millis(250)).await;
+        if let Ok(Some(st)) = p.child.try_wait() {
+            let code = st.code().map(|c| c as u128).unwrap_or(999);
+            dead = Some(code);
+            out.push(vec![0, code, 0, 0]);
+            continue;
+        }
+        out.push(vec![1, 1000, served, unknown]);
+    }
+    let mut code = dead.unwrap_or(1000);
+    if dead.is_none() {
+        unsafe {
+            libc::kill(p.child.id() as i32, libc::SIGINT);
+        }
+        for _ in 0..200 {
+            if let Ok(Some(st)) = p.child.try_wait() {
+                code = st.code().map(|c| c as u128).unwrap_or(999);
+                break;
+            }
+            tokio::time::sleep(Duration::from_millis(25)).await;
+        }
+    }
+    out.push(vec![code]);
+    out
+}
+
 pub fn run(toks: Vec<Tok>) -> Vec<Tok> {
     let f = toks[0].clone();
     let text = |i: usize| toks.get(i).map(|t| String::from_utf8_lossy(&bytes(t)).to_string()).unwrap_or_default();
@@ -348,6 +470,10 @@ pub fn run(toks: Vec<Tok>) -> Vec<Tok> {
     }
     if f[0] == 4 {
         return rt.block_on(quiet_secrets(f, user, password, text(3), text(4)));
+    }
+    if f[0] == 5 {
+        let steps = toks.get(1).cloned().unwrap_or_default();
+        return rt.block_on(reloads(f, steps));
     }
     if f[0] == 3 {
         // the rules file as the binary reads it: in [3, 0, level] rules-file-text; out as c04_front (TLS)
